@@ -320,6 +320,35 @@ func solve(q Query, timeout time.Duration) SolverRes {
 				sets = append(sets, factSet{"prq", pf, false})
 			}
 		}
+		{
+			// strict: only the quantifier-free facts that talk exclusively about symbols of the goal
+			gs := map[string]bool{}
+			symbolsOf(q.Goal, gs, map[*Term]bool{})
+			var strict []*Term
+			for _, f := range q.Facts {
+				if defFacts[f] {
+					continue
+				}
+				if _, _, _, qq := featureScan([]*Term{f}); qq {
+					continue
+				}
+				fsy := map[string]bool{}
+				symbolsOf(f, fsy, map[*Term]bool{})
+				sub := len(fsy) > 0
+				for n := range fsy {
+					if !gs[n] {
+						sub = false
+						break
+					}
+				}
+				if sub {
+					strict = append(strict, f)
+				}
+			}
+			if len(strict) < len(q.Facts) {
+				sets = append(sets, factSet{"strict", strict, false})
+			}
+		}
 		if hasFP {
 			var nd []*Term
 			droppedDef := false
@@ -333,6 +362,23 @@ func solve(q Query, timeout time.Duration) SolverRes {
 			// quantifier-free, without the definitions of float locals: lets the solvers use their bit-blasting tactics
 			var qf []*Term
 			goalHasMathSort := hasSort(q.Goal, SMath)
+			var nolem []*Term
+			for _, f := range nd {
+				if lemmaFacts[f] {
+					continue
+				}
+				if _, _, _, qq := featureScan([]*Term{f}); qq {
+					continue
+				}
+				if !goalHasMathSort && (hasSort(f, SMath) || hasSort(f, SUn)) {
+					continue
+				}
+				nolem = append(nolem, f)
+			}
+			if len(nolem) < len(nd) {
+				cf, _ := coiFacts(nolem, q.Goal)
+				sets = append(sets, factSet{"nolem", cf, false})
+			}
 			for _, f := range nd {
 				if _, _, _, qq := featureScan([]*Term{f}); qq {
 					continue
@@ -348,27 +394,7 @@ func solve(q Query, timeout time.Duration) SolverRes {
 				cf, _ := coiFacts(qf, q.Goal)
 				sets = append(sets, factSet{"nodef", cf, false})
 			}
-			// strict: only the facts that talk exclusively about symbols of the goal
-			gs := map[string]bool{}
-			symbolsOf(q.Goal, gs, map[*Term]bool{})
-			var strict []*Term
-			for _, f := range qf {
-				fsy := map[string]bool{}
-				symbolsOf(f, fsy, map[*Term]bool{})
-				sub := len(fsy) > 0
-				for n := range fsy {
-					if !gs[n] {
-						sub = false
-						break
-					}
-				}
-				if sub {
-					strict = append(strict, f)
-				}
-			}
-			if len(strict) < len(qf) {
-				sets = append(sets, factSet{"strict", strict, false})
-			}
+
 		}
 	}
 	type job struct {
@@ -417,15 +443,16 @@ func solve(q Query, timeout time.Duration) SolverRes {
 		}
 	}
 	// job selection (prio 0 = first stage, 1 = second stage); everything else is left out to keep the load bounded
+	_, _, goalFP, _ := featureScan([]*Term{q.Goal})
 	for _, fs := range sets {
 		switch {
-		case hasFP && !q.Cover:
+		case hasFP && goalFP && !q.Cover:
 			// float goals are expensive: a small fixed set of jobs, all in one stage
 			switch fs.label {
 			case "nodef":
 				add(fs.label, fs.facts, fs.full, ModeBV, 0)
 				add(fs.label, fs.facts, fs.full, ModeReal, 0)
-			case "strict":
+			case "strict", "nolem":
 				add(fs.label, fs.facts, fs.full, ModeBV, 0)
 			case "full":
 				if len(sets) == 1 {
@@ -444,15 +471,16 @@ func solve(q Query, timeout time.Duration) SolverRes {
 				}
 				if !haveNodef {
 					add(fs.label, fs.facts, fs.full, ModeBV, 0)
-					add(fs.label, fs.facts, fs.full, ModeReal, 0)
-				} else {
-					add(fs.label, fs.facts, fs.full, ModeReal, 2)
 				}
+				add(fs.label, fs.facts, fs.full, ModeReal, 0)
 			}
 		default:
 			base := 1
-			if fs.label == "coi" || fs.label == "prq" || len(sets) == 1 {
+			if fs.label == "coi" || fs.label == "prq" || fs.label == "strict" || len(sets) == 1 {
 				base = 0
+			}
+			if fs.label == "nodef" {
+				continue
 			}
 			add(fs.label, fs.facts, fs.full, ModeInt, base)
 			if bits || !quant {
@@ -496,7 +524,7 @@ func solve(q Query, timeout time.Duration) SolverRes {
 		return decided
 	}
 	st1 := 3 * time.Second
-	if hasFP {
+	if hasFP && goalFP {
 		st1 = timeout
 	}
 	if timeout < st1 {
@@ -515,7 +543,7 @@ func solve(q Query, timeout time.Duration) SolverRes {
 		return *d
 	}
 	second := jobs
-	if hasFP {
+	if hasFP && goalFP {
 		second = rest // the first-stage jobs already ran with the full budget
 	}
 	if len(second) > 0 {
